@@ -288,8 +288,9 @@ def plan(ctx):
         kwb = dict(kind='bounded', bound='the function now contains a loop without loop contract: size <= 4, unwound 6 times (unwinding assertions on)',
                    cbmc_flags=['--unwind', '6', '--unwinding-assertions'], defines=['C14_EXACT_SMALL=1']) if loopy else {}
         groups.append(Group(name='Filesystem.' + fn, harness=H, entry='h_' + fn, function=cxx, enforce='phosg_' + fn, replace=replace, **kwb,
-                            clause_note='returns normally iff the one underlying call transferred exactly `size` bytes; then the buffer holds '
-                                        'exactly those stream bytes (ghost index); otherwise io_error',
+                            clause_note='a transfer of exactly `size` bytes returns normally, a failed or empty one raises io_error; on a normal return the buffer '
+                                        'holds exactly the `size` stream bytes (ghost index) -- "exactly the bytes the source delivers, or throw"; the write side: '
+                                        'returns normally iff the one underlying call transferred `size` bytes',
                             replay=Replay(driver='C14/fs.cc', mode=mode, extra=[fn], sources=ALL_LIB, small_define='VERIF_SMALL')))
     E('readx', 'readx(int, void*, size_t)', ['c14_read'])
     E('readx_str', 'readx(int, size_t)', ['phosg_readx', 'vstr_resize'])
